@@ -102,6 +102,17 @@ pub fn replay_other(prop: &str, doc: &serde_json::Value, path: &std::path::PathB
         Some("elf") => elf::replay_elf(&v["case"]),
         Some("c15") => nopanic::replay_c15(&v["case"]),
         Some("c07run") => decode::replay_c07run(&v["case"]),
+        Some("c20run") => {
+            let c = &v["case"]["charges_through_run"];
+            let base = u32::from_str_radix(c["base"].as_str().unwrap_or("420000"), 16).unwrap_or(0x420000);
+            match charge::charges_through_run_case(&mut ctx, c["background"].as_u64().unwrap_or(0) as u8, base) {
+                Some((m, _)) => {
+                    println!("FAILS: {}", m);
+                    false
+                }
+                None => true,
+            }
+        }
         other => {
             println!("no replay handler for engine {:?} (property {})", other, prop);
             return 2;
